@@ -27,6 +27,15 @@ pub fn hostile(ctx: &mut Ctx, ev: Ev, sz: &Sizes, kind_prefix: &str, f: &mut dyn
     let pool = ph_pool(ev);
     if sz.bombs {
         for (i, b) in bombs(ev).iter().enumerate() {
+            if b.contains('@') && b.chars().count() <= 24 {
+                // short bombs that read the placeholder meet every value of the hostile pool
+                for ph in &pool {
+                    if ctx.mine() {
+                        f(ctx, Case::new(ev, &format!("{}w5", kind_prefix), b, *ph));
+                    }
+                }
+                continue;
+            }
             for k in 0..3u64 {
                 if ctx.mine() {
                     let ph = ph_at(&pool, i as u64 * 3 + k);
@@ -92,6 +101,32 @@ pub fn hostile(ctx: &mut Ctx, ev: Ev, sz: &Sizes, kind_prefix: &str, f: &mut dyn
             let (_, s) = gen_expr(&cfg, &mut rng, depth);
             let ph = *rng.pick(&pool);
             f(ctx, Case::new(ev, &format!("{}w3", kind_prefix), &s, ph));
+        }
+    }
+    // long inputs: several random subtrees chained up to the 256-character bound
+    for i in 0..sz.w3 / 8 {
+        if ctx.mine() {
+            let mut rng = ctx.rng(&format!("w3long/{}", ev.name()), i);
+            let ops: Vec<&str> = match ev {
+                Ev::I64 => vec!["+", "-", "*", "/", "%", "^", "&", "|", "<<", ">>"],
+                Ev::Cpx => vec!["+", "-", "*", "/", "^"],
+                _ => vec!["+", "-", "*", "/", "%", "^"],
+            };
+            let mut s = String::new();
+            loop {
+                let d = 1 + rng.below(4);
+                let (_, part) = gen_expr(&cfg, &mut rng, d);
+                let sep = if s.is_empty() { "" } else { *rng.pick(&ops) };
+                if s.chars().count() + sep.len() + part.chars().count() > 256 {
+                    break;
+                }
+                s.push_str(sep);
+                s.push_str(&part);
+            }
+            if !s.is_empty() {
+                let ph = *rng.pick(&pool);
+                f(ctx, Case::new(ev, &format!("{}w3", kind_prefix), &s, ph));
+            }
         }
     }
     for i in 0..sz.w4 {
